@@ -81,3 +81,22 @@ def attach(rng, cases, share, n=2, weights=None, when=None):
 
 def describe_pre(c):
     return [[p["s"], p.get("kw"), p.get("settings")] for p in c.get("pre") or []]
+
+
+# --------------------------------------------------------------------------- bystander settings
+DEFAULT_PARSERS = ["timestamp", "relative-time", "custom-formats", "absolute-time", "no-spaces-time"]
+
+
+def bystanders(rng, present=("day", "month", "year"), share=0.3):
+    """Settings that must not change the outcome of a call whose string states the parts `present`: a requirement
+    that the string meets (REQUIRE_PARTS within `present`), and defaults spelled out explicitly."""
+    out = {}
+    if rng.random() < share and present:
+        k = rng.randint(1, len(present))
+        out["REQUIRE_PARTS"] = sorted(rng.sample(list(present), k))
+    if rng.random() < share / 3:
+        key, val = rng.choice([("STRICT_PARSING", False), ("PARSERS", list(DEFAULT_PARSERS)), ("SKIP_TOKENS", ["t"]),
+                               ("NORMALIZE", True), ("RETURN_AS_TIMEZONE_AWARE", False), ("DEFAULT_LANGUAGES", []),
+                               ("PREFER_LOCALE_DATE_ORDER", True), ("TO_TIMEZONE", None) if False else ("CACHE_SIZE_LIMIT", 1000)])
+        out[key] = val
+    return out
